@@ -669,3 +669,4 @@ PROPS["C08"]["rule"] += " A second part (expiry-cascade, virtual clock) runs the
 PROPS["C08"]["rule"] += " Half of the properties are written as facts ({id: target, '!p': value}) rather than with SetProp; they must go with their target all the same (whether the dependency shows in the stored form is not prescribed)."
 PROPS["C14"]["rule"] += " The non-terminating family includes scripts that get past the limit inside a built-in function (one long Env.sleep as the last step, many short ones in a loop); the throwing family includes thrown values that cannot be turned into a message and results whose getter throws. A 'good' script that fails is only a violation if it came back in less than half its limit (a busy machine can make a script meet its limit for real)."
 PROPS["C14"]["rule"] += " A `chain` family returns what Env.ProcessEvent returned (with and without a rule for the inner event, bare and wrapped in an object): such a script finishes and succeeds. The self-referring values include cycles hidden from JSON (a toJSON method; a JSON object replaced by the script)."
+PROPS["C14"]["rule"] += " Actions are written with every documented code encoding (absent, \"none\", \"\", base64)."
